@@ -272,7 +272,7 @@ def natural_loops(fn):
 
 
 def _var_of(n):
-    n = n.strip()
+    n = std_unwrap(n)
     if n.kind == "DeclRefExpr" and n.get("local"):
         return n.d["d"]
     return None
